@@ -47,7 +47,7 @@ package yubiattest
 //@   requires size >= 0
 //@   ensures len(out) == size && (size > 0 ==> fresh(arr(out)))
 //@   ensures forall(j, 0 <= j && j < size - min(len(input), size), out[j] == 0)
-//@   ensures forall(j, 0 <= j && j < min(len(input), size), out[size - min(len(input), size) + j] == input[j])
+//@   ensures forall(j, size - min(len(input), size) <= j && j < size, out[j] == input[j - (size - min(len(input), size))])
 
 //@ func encrypt(c, pub, m)
 //@   requires c != nil && pub != nil && m != nil && pub.N != nil
@@ -67,5 +67,15 @@ package yubiattest
 //@   ensures result == nil <==> pkcsOK(pub, hash, hashed, sig)
 //@   loop 1:
 //@     invariant k == kOf(pub) && len(em) == k && forall(j, 0 <= j && j < k, em[j] == emAt(k, mOf(pub, sig), j))
+//@     invariant len(hashed) == hsize(hash) && hashLen == hsize(hash) && tLen1 == p1len(hash) + hsize(hash) && tLen2 == p2len(hash) + hsize(hash) && k >= tLen1 + 11
+//@     invariant (prefix1ok == 0 || prefix1ok == 1) && (prefix2ok == 0 || prefix2ok == 1)
+//@     invariant prefix1ok == 1 <==> (emAt(k, mOf(pub, sig), k - tLen1 - 1) == 0 &&
+//@       forall(j, 0 <= j && j < p1len(hash), emAt(k, mOf(pub, sig), k - tLen1 + j) == p1at(hash, j)))
+//@     invariant prefix2ok == 1 <==> (emAt(k, mOf(pub, sig), k - tLen2 - 1) == 0 &&
+//@       forall(j, 0 <= j && j < p2len(hash), emAt(k, mOf(pub, sig), k - tLen2 + j) == p2at(hash, j)))
+//@     invariant correctTLen == (prefix1ok == 1 ? tLen1 : prefix2ok == 1 ? tLen2 : 0)
+//@     invariant entry(ok) == 1 <==> (emAt(k, mOf(pub, sig), 0) == 0 && emAt(k, mOf(pub, sig), 1) == 1 &&
+//@       forall(j, 0 <= j && j < hsize(hash), emAt(k, mOf(pub, sig), k - hsize(hash) + j) == hashed[j]) &&
+//@       (prefix1ok == 1 || prefix2ok == 1))
 //@     invariant 2 <= i && (ok == 0 || ok == 1)
 //@     invariant ok == 1 <==> (entry(ok) == 1 && forall(j, 2 <= j && j < i, emAt(k, mOf(pub, sig), j) == 255))
